@@ -248,6 +248,7 @@ class Scheduler:
             t = self.threads[tid]
             if kind == "timeout":
                 t.timed_out = True
+                ex.log.append((self.step + 1, tid, "timeout-fired"))
             # spin detection: same thread, same label, repeatedly, with no other thread stepping in between
             if self.spin_limit is not None:
                 if cur is not None and cur.tid == tid:
@@ -399,10 +400,8 @@ class CoopCondition:
         self._waiters.append(w)
         timed_out = s.yield_point("cond.wait", blocked_on=lambda: w[0], timeout_ok=timeout is not None)
         if timed_out and not w[0]:
-            try:
-                self._waiters.remove(w)
-            except ValueError:
-                pass
+            # remove *this* waiter (by identity: waiters are equal-looking lists)
+            self._waiters[:] = [x for x in self._waiters if x is not w]
         # re-acquire
         while self._lock._owner is not None and self._lock._owner != me:
             s.yield_point("cond.reacquire", blocked_on=lambda: self._lock._owner is None)
